@@ -204,7 +204,19 @@ func init() {
 		bad := []any{}
 		for k := 0; k <= len(full); k++ {
 			in := append([]byte{}, full[:k]...)
-			o := rd(in, a)
+			var o ReadOut
+			if msg := guarded(func() { o = rd(in, a) }); msg != "" {
+				// the entry point itself, or the serialisation/accessor projection of what it returned, did not return normally
+				if len(bad) < 20 {
+					if len(msg) > 600 {
+						msg = msg[:600]
+					}
+					bad = append(bad, map[string]any{"recv": fmt.Sprintf("cut=%d", k), "method": "parse-and-project", "panicked": msg != "hang", "hung": msg == "hang",
+						"verify_success": false, "msg": msg})
+				}
+				nerr++
+				continue
+			}
 			if o.OK {
 				continue
 			}
